@@ -33,9 +33,11 @@ namespace cppcms {
 			}
 			void clear()
 			{
+				// keep the first page: it is always a regular page of page_size_ bytes,
+				// pages of big strings (smaller than page_size_) are linked after it
 				while(pages_->next) {
-					page *p = pages_;
-					pages_ = pages_->next;
+					page *p = pages_->next;
+					pages_->next = p->next;
 					free(p);
 				}
 				data_ = pages_->data;
